@@ -4,6 +4,7 @@ set -e
 cd "$(dirname "$0")"
 export CARGO_NET_OFFLINE=true
 mkdir -p .build run evidence
+python3 tools/gen_sources.py > .build/gen_sources.log
 cd coq
 coq_makefile -f _CoqProject $(find theories -name '*.v' | sort) -o Makefile >/dev/null
 timeout 3000 make -j16 > ../.build/coq_build.log 2>&1 || { tail -30 ../.build/coq_build.log; exit 1; }
